@@ -11,6 +11,27 @@ pub fn reaching_definitions(
     fixed_point::fixed_point_forward(rda, function)
 }
 
+/// The definitions which reach `location` immediately before it executes: the
+/// union of the definitions reaching the end of each of its predecessors.
+pub(crate) fn reaching_definitions_in(
+    function: &il::Function,
+    reaching_definitions: &HashMap<il::ProgramLocation, LocationSet>,
+    location: &il::ProgramLocation,
+) -> Result<LocationSet, Error> {
+    let location = location.function_location().apply(function)?;
+    let location = il::RefProgramLocation::new(function, location);
+    let mut defs = LocationSet::new();
+    for predecessor in location.backward()? {
+        if let Some(reaching) = reaching_definitions.get(&predecessor.into()) {
+            reaching
+                .locations()
+                .iter()
+                .for_each(|location| defs.insert(location.clone()));
+        }
+    }
+    Ok(defs)
+}
+
 // We require a struct to implement methods for our analysis over.
 struct ReachingDefinitionsAnalysis<'r> {
     function: &'r il::Function,
